@@ -31,7 +31,7 @@ inductive Tok where
 
 /-- events delivered to / by a ValueConsumer, as a tree (AddArray/AddHash take a doer) -/
 inductive Ev where
-  | sc (s : Sc) | ref (n : Nat) | arr (es : List Ev) | hsh (es : List Ev)
+  | sc (s : Sc) | ref (n : Int) | arr (es : List Ev) | hsh (es : List Ev)
   deriving Repr, Inhabited
 
 /-- one statement of an arm of `delimit` or of an `Add…` body, as recognised by the extractor -/
@@ -65,7 +65,7 @@ def charTok (c : Char) : Tok :=
   if c = '[' then .lb else if c = ']' then .rb else if c = '{' then .lc else if c = '}' then .rc
   else if c = ',' then .comma else if c = ':' then .colon else .bad (String.singleton c)
 
-def refToks (n : Nat) : List Tok := [.lc, .sc (.str "__pref"), .colon, .sc (.int n), .rc]
+def refToks (n : Int) : List Tok := [.lc, .sc (.str "__pref"), .colon, .sc (.int n), .rc]
 
 /-- run a statement list; `body st` is what `doer()` emits and the state it leaves when entered in `st`;
     `elem` are the tokens of the scalar / reference being added -/
@@ -147,7 +147,7 @@ def readVal : Nat → List Tok → Option (Ev × List Tok)
       if isPrefKey k then
         -- `{"__pref": n}`: the next token must be an integer number and the object must end there
         match rest with
-        | .sc (.int n) :: .rc :: rest' => if n < 0 then none else some (.ref n.toNat, rest')
+        | .sc (.int n) :: .rc :: rest' => some (.ref n, rest')
         | _ => none
       else
         match k with
